@@ -4,6 +4,7 @@ import VtProofs.PMFind
 import VtProofs.Hilbert
 import VtProofs.VersatilesRead
 import VtProofs.PMTilesRead
+import VtProofs.TarRead
 /-!
 # C16 — readers accept every container that is valid by the published format layouts
 
@@ -154,6 +155,26 @@ theorem pmtiles_lookup_absent (r : PMTiles.Reader) (C : VtProofs.PMTilesRead.Ctx
     (hno : ∀ t, VtProofs.PMTilesRead.Addr C d raw i t → t.len = 0) :
     PMTiles.lookupLoop r i (d + 1) raw = .ok none :=
   VtProofs.PMTilesRead.lookup_absent r C rc d lo hi raw i hwf hno
+
+/-! ## tar and MBTiles -/
+
+/-- **C16 (tar)**: an archive whose tile members are named `z/x/y.<fmt>[.<comp>]` with or without the
+    `./` prefix (any mixture, any order; one format, one compression, pairwise different coordinates)
+    is opened, declares that format and compression, returns each member's payload and `None` for
+    every other coordinate -/
+theorem tar_reader_complete (K : Inflate) (f : TileFormat) (c : TComp) (ts : List VtProofs.TarRead.TileFile)
+    (hne : ts ≠ []) (hok : ∀ t ∈ ts, t.ok) (hnd : (ts.map fun t => (t.x, t.y, t.z)).Nodup) :
+    ∃ r, TarDir.openTar K (ts.map (VtProofs.TarRead.TileFile.file f c)) = .ok r ∧ r.fmt = f ∧ r.comp = c ∧
+      (∀ t ∈ ts, TarDir.getTile r t.x t.y t.z = .ok (some t.payload)) ∧
+      (∀ x y z, (∀ t ∈ ts, (t.x, t.y, t.z) ≠ (x, y, z)) → TarDir.getTile r x y z = .ok none) :=
+  VtProofs.TarRead.tar_complete K f c ts hne hok hnd
+
+/-- **C16 (mbtiles)**: zoom gaps do not fail the open (the model of the tree after the repair of F10;
+    `VtModel.MBTiles.openReaderF10` keeps the old behaviour, see the `example` in `VtProofs.TarRead`) -/
+theorem mbtiles_opens_with_zoom_gaps (db : MBTiles.DB) (hne : db ≠ []) (hz : ∀ r ∈ db, r.z ≤ 31)
+    (f : String) (hf : f = "jpg" ∨ f = "pbf" ∨ f = "png" ∨ f = "webp") :
+    ∃ r, MBTiles.openReader (some f) db = .ok r ∧ r.db = db :=
+  VtProofs.TarRead.mbtiles_opens_with_gaps db hne hz f hf
 
 /-! ## non-vacuity -/
 
